@@ -312,7 +312,7 @@ def c12_5(c: Ctx) -> None:
     if not cache_reads:
         c.ok(where(u), 'no class-level cache of the result type is read')
         return
-    explicit = [n for n in g.live_nodes() if n.kind in ('if', 'stmt') and any(isinstance(x, (ast.Subscript, ast.Call)) and 'model_fields' in U(x) and 'event_result_type' in U(x) for h in q.node_exprs(n) for x in ast.walk(h))]
+    explicit = [n for n in g.live_nodes() if n.kind in ('if', 'stmt') and any(isinstance(x, (ast.Subscript, ast.Call, ast.Compare)) and 'model_fields' in U(x) and 'event_result_type' in U(x) for h in q.node_exprs(n) for x in ast.walk(h))]
     if not explicit:
         c.fail(u, 'the class-level result-type cache is read but an explicit event_result_type of the class is never consulted', "an event class that re-declares event_result_type is validated against an inherited cached type")
         return
